@@ -24,15 +24,42 @@ mod verif_kani {
         assert!(k.is_cancelled());
     }
 
-    /// C09: dropping the auto-cancelling key cancels the action observed through any clone.
+    /// C09: dropping the auto-cancelling key cancels the action observed through any clone - however many other
+    /// handles of the same key are alive (plain clones, the queued action, its next occurrence).
     #[kani::proof]
     fn auto_key_drop_cancels() {
         let k = ActionKey::new();
         let obs = k.clone();
+        let n_extra: u8 = kani::any();
+        kani::assume(n_extra <= 3);
+        let extra1 = if n_extra >= 1 { Some(k.clone()) } else { None };
+        let extra2 = if n_extra >= 2 { Some(k.clone()) } else { None };
+        let extra3 = if n_extra >= 3 { Some(k.clone()) } else { None };
         let auto = k.into_auto();
         assert!(!obs.is_cancelled());
         drop(auto);
         assert!(obs.is_cancelled());
+        mem::forget(extra1);
+        mem::forget(extra2);
+        mem::forget(extra3);
+    }
+
+    /// C09: the same with the handles held by a queued keyed periodic action and its next occurrence.
+    #[kani::proof]
+    fn auto_key_drop_cancels_queued_periodic_action() {
+        let p = any_duration();
+        let k = ActionKey::new();
+        let a = KeyedPeriodicAction::new(|_k: ActionKey| async {}, p, k.clone());
+        let next = ActionInner::next(&a);
+        let auto = k.into_auto();
+        assert!(!ActionInner::is_cancelled(&a));
+        drop(auto);
+        assert!(ActionInner::is_cancelled(&a));
+        if let Some((b, _)) = &next {
+            assert!(b.is_cancelled());
+        }
+        mem::forget(next);
+        mem::forget(a);
     }
 
     /// C10: the next occurrence of a periodic action carries exactly the stored period (all Durations),
